@@ -472,11 +472,24 @@ type c40ClaimCase struct {
 	ChainID   string  `json:"chain_id"`
 }
 
+var (
+	c40ChainsMu sync.Mutex
+	c40Chains   = map[string]*TbtcChain{}
+)
+
 func c40RunClaim(r *vrep.R, c c40ClaimCase) {
 	r.Eval(1)
 	chainID, _ := new(big.Int).SetString(c.ChainID, 10)
 	nonce, _ := new(big.Int).SetString(c.Nonce, 10)
-	tc := &TbtcChain{baseChain: &baseChain{chainID: chainID}}
+	// one chain handle per chain id for the whole run, as a node has: claims for the same
+	// wallet and nonce but another inactive set / flag are hashed by the same object
+	c40ChainsMu.Lock()
+	tc := c40Chains[c.ChainID]
+	if tc == nil {
+		tc = &TbtcChain{baseChain: &baseChain{chainID: chainID}}
+		c40Chains[c.ChainID] = tc
+	}
+	c40ChainsMu.Unlock()
 	pk := &c40Key(c.Key).PublicKey
 	var inactive []group.MemberIndex
 	var ref []uint64
